@@ -212,3 +212,14 @@ func (vfCodec) Unmarshal(data mem.BufferSlice, v any) error {
 }
 
 func vfGetCodecV2(name string) encoding.CodecV2 { return vfCodec{} }
+
+// vfSortSlice replaces sort.Slice / sort.SliceStable (which go through reflection): a stable
+// insertion sort driven by the caller's less function.
+func vfSortSlice(x any, less func(i, j int) bool) {
+	n := vfSliceLenAny(x)
+	for i := 1; i < n; i++ {
+		for j := i; j > 0 && less(j, j-1); j-- {
+			vfSliceSwapAny(x, j, j-1)
+		}
+	}
+}
